@@ -278,10 +278,13 @@ def special_programs(rng, thorough):
     (the position of the special gate rotates; all positions in the thorough tier)"""
     progs = []
     idx = 0
+    rot = rng.randrange(3)
     for kind, par, scale in PARAMS:
         for sp in special_angles(scale):
             idx += 1
-            for pos in ((0, 1, 2, None) if thorough else (idx % 3, None)):
+            # quick: every value alone, and a third of them (rotating with the seed) inside a
+            # 3-gate program; thorough: alone and at every position
+            for pos in ((0, 1, 2, None) if thorough else ((idx // 3 % 3, None) if idx % 3 == rot else (None,))):
                 d = rng.choice((2, 3, 3, 4) if thorough else (2, 3, 3)) if pos is not None else rng.choice((2, 3))
                 g = gen_gate(rng, d, [kind], special=0.0)
                 g[par] = sp
